@@ -55,9 +55,11 @@ def run(ctx):
     ctx.mc('MC_WellFormedIR', cfg, workers=4, timeout=3000, coverage=False)
 
     reg_list = W.registry()
+    if os.environ.get('VERIF_C41_ONLY'):      # (development: restrict the registry)
+        reg_list = [(n, f) for n, f in reg_list if any(w in n for w in os.environ['VERIF_C41_ONLY'].split(','))]
     reg = dict(reg_list)
-    nprog = int(os.environ.get('VERIF_C41_N', 0)) or (3 if ctx.quick else 30)
-    npairs = 0 if ctx.quick else 40
+    nprog = int(os.environ.get('VERIF_C41_N', 0)) or (3 if ctx.quick else 12)
+    npairs = 0 if ctx.quick else 25
     if ctx.replay:
         c = ctx.replay['case']
         progs = [c['prog']]
